@@ -441,7 +441,7 @@ def r7(R, repo):
           'from_state_dict must run the handler inside `with _record_path(name)` so errors name the path')
   rp = mod.func('_record_path')
   tr = [n for n in astu.body_walk(rp.node) if isinstance(n, ast.Try)]
-  ok = len(tr) == 1 and tr[0].finalbody and 'path.pop()' in astu.src(tr[0].finalbody[0]) and 'path.append(%s)' % astu.params(rp.node)[0] in astu.src(tr[0])
+  ok = len(tr) == 1 and tr[0].finalbody and any('path.pop()' in astu.src(s_) for s_ in tr[0].finalbody) and 'path.append(%s)' % astu.params(rp.node)[0] in astu.src(tr[0])
   R.judge(len(tr) == 1 and bool(tr[0].finalbody), ok, key_of(rp, 'append / pop in finally'), rp, '_record_path must pop the path component in a finally block')
   nt = mod.func('_is_namedtuple')
   R.check("isinstance(x, tuple) and hasattr(x, '_fields')" in astu.src(nt.node), key_of(nt, 'tuple with _fields'), nt, '_is_namedtuple must be `isinstance(x, tuple) and hasattr(x, "_fields")`')
